@@ -75,7 +75,7 @@ Lemma sc_apply_loop rem m : forall s, start_calls (apply_loop rem s m) = start_c
 Proof.
   induction rem as [|r IH]; intros s; simpl.
   - destruct (get_m s m); auto. autorewrite with fr. reflexivity.
-  - destruct (get_m s m) as [x|]; auto. destruct (m_bad x).
+  - destruct (get_m s m) as [x|]; auto. destruct (nth (m_idx x) (m_bad x) false).
     + rewrite IH. reflexivity.
     + pose proof (sc_try_start s m x) as H1.
       destruct (try_start s m x) as [s' cont]. cbn [fst] in H1. destruct cont; auto.
